@@ -1,7 +1,7 @@
 """C20: runtime contract - print_i64/println_i64 for every int64, driver argument passing and exit status.
 Engine E5a: the real io.c and the real generated driver<n>.c are lowered with clang -O0 and executed
 symbolically from their LLVM IR (llir/ir.py, integer encoding with explicit wrap-around)."""
-import os, sys, json, time, subprocess, shutil, tempfile
+import os, sys, json, time, subprocess, shutil, tempfile, re
 ROOT = os.path.abspath(os.path.join(os.path.dirname(__file__), '..'))
 for d in ('lib', 'sme', 'gen', 'checks', 'llir'):
     sys.path.insert(0, os.path.join(ROOT, d))
@@ -27,6 +27,10 @@ def lower(cfile, workdir):
 
 def ext_write(ex, path, vals):
     fd, p, n = vals
+    if not ir.is_c(n.t):
+        sn = z3.simplify(n.t)
+        if z3.is_int_value(sn):
+            n = IntV(64, sn.as_long())
     if not ir.is_c(n.t):
         rs, m = ex.check(path.pc, [])
         # the length must be determined on each path
@@ -128,6 +132,7 @@ def check_print(fn, text, newline, timeout_ms):
     funcs, globs = ir.parse_module(text)
     v = z3.Int('v')
     ex = ir.Exec(funcs, globs, make_externs([]), max_block_visits=25, timeout_ms=timeout_ms)
+    ex.deadline = time.time() + (480 if fw.tier() == 'quick' else 3600)
     pre = [v >= I64MIN, v <= I64MAX]
     paths = ex.run(fn, [IntV(64, v)], init_pc=pre)
     obligations, discharged, failures = 0, 0, []
@@ -317,12 +322,95 @@ def native_driver_replay(workdir, driver_c, n, args):
     return got != [str(a) for a in args], {'got': got, 'want': [str(a) for a in args]}
 
 
+CBMC_DIR = os.path.join(ROOT, 'cbmc')
+CBMC_FLAGS = ['--unwind', '22', '--unwinding-assertions', '--signed-overflow-check', '--bounds-check', '--pointer-check']
+
+
+def cbmc_twin(iofile, fn, work, bound, search_s):
+    """E5b: CBMC on the real io.c (independent of llir/ir.py).  (1) proof for |v| < bound with unwinding assertions;
+    (2) bug-hunting search over all int64: CBMC emits SMT-LIB, cvc5 looks for a model within `search_s` seconds
+    (a time-out there is reported as nothing).  Returns dict(proof, search, counterexamples [v...])"""
+    shutil.copyfile(iofile, os.path.join(work, 'io.c'))
+    shutil.copyfile(os.path.join(CBMC_DIR, 'print_harness.c'), os.path.join(work, 'print_harness.c'))
+    line = ['-DLINE'] if fn == 'println_i64' else []
+    out = {'proof': None, 'search': None, 'counterexamples': [], 'bound': bound}
+    t = time.time()
+    try:
+        r = subprocess.run(['cbmc', 'print_harness.c', f'-DBOUND={bound}'] + line + CBMC_FLAGS + ['--trace'], cwd=work,
+                           stdout=subprocess.PIPE, stderr=subprocess.STDOUT, text=True, timeout=max(120, search_s * 4))
+        if 'VERIFICATION SUCCESSFUL' in r.stdout:
+            out['proof'] = 'successful'
+        elif 'VERIFICATION FAILED' in r.stdout:
+            out['proof'] = 'failed'
+            m = re.findall(r'\bv=(-?\d+)', r.stdout)
+            if m:
+                out['counterexamples'].append(int(m[-1]))
+            out['failed_checks'] = re.findall(r'\[.*?\] line \d+ (.*?): FAILURE', r.stdout)[:5]
+        else:
+            out['proof'] = 'error: ' + r.stdout[-200:]
+    except subprocess.TimeoutExpired:
+        out['proof'] = 'timeout'
+    out['proof_s'] = round(time.time() - t, 1)
+    t = time.time()
+    q = os.path.join(work, 'full.smt2')
+    try:
+        subprocess.run(['cbmc', 'print_harness.c', '-DFULL_RANGE'] + line + CBMC_FLAGS + ['--smt2', '--outfile', q], cwd=work,
+                       stdout=subprocess.PIPE, stderr=subprocess.STDOUT, text=True, timeout=120)
+        txt = open(q).read()
+        head = txt[:txt.index('(get-value')] if '(get-value' in txt else txt
+        sym = re.findall(r'\(get-value \(\|(main::1::v!0@1#2)\|\)\)', txt)
+        with open(q, 'w') as f:
+            f.write(head + (f"(get-value (|{sym[0]}|))\n" if sym else ''))
+        r = subprocess.run(['cvc5', '--lang', 'smt2', q], stdout=subprocess.PIPE, stderr=subprocess.STDOUT, text=True, timeout=search_s)
+        first = r.stdout.strip().split('\n')[0] if r.stdout.strip() else ''
+        if '(error' in r.stdout:
+            out['search'] = 'error'
+        elif first == 'sat':
+            out['search'] = 'sat'
+            m = re.search(r'#x([0-9a-fA-F]{16})|#b([01]{64})|\(_ bv(\d+) 64\)', r.stdout)
+            if m:
+                val = int(m.group(1), 16) if m.group(1) else int(m.group(2), 2) if m.group(2) else int(m.group(3))
+                out['counterexamples'].append(val - (1 << 64) if val >= (1 << 63) else val)
+        elif first == 'unsat':
+            out['search'] = 'unsat (all int64 values)'
+        else:
+            out['search'] = 'no verdict'
+    except subprocess.TimeoutExpired:
+        out['search'] = f'no model within {search_s} s'
+    except Exception as e:
+        out['search'] = f'error: {type(e).__name__}: {e}'
+    out['search_s'] = round(time.time() - t, 1)
+    return out
+
+
 def _task(t):
     work = tempfile.mkdtemp(prefix='c20_')
     E = e0mod.shared()
     to = t['timeout_ms']
     out = {'task': t, 'reports': [], 'inconc': [], 'obligations': 0, 'discharged': 0, 'queries': 0, 'solver_s': 0.0, 'sample': None}
     try:
+        if t['kind'] == 'cbmc':
+            r = E.req({'cmd': 'cdriver', 'nargs': 0, 'dir': work})
+            if not r.get('ok'):
+                out['inconc'].append(f"cdriver: {r}")
+                return out
+            fn = t['fn']
+            res = cbmc_twin(r['io'], fn, work, t['bound'], t['search_s'])
+            out['sample'] = {'cbmc_twin': fn, **{k: res[k] for k in ('proof', 'proof_s', 'search', 'search_s', 'bound')}}
+            out['obligations'] = 1
+            out['discharged'] = 1 if res['proof'] == 'successful' else 0
+            if res['proof'] not in ('successful', 'failed'):
+                out['inconc'].append(f"CBMC twin {fn}: proof for |v| < {t['bound']}: {res['proof']}")
+            for v in res['counterexamples']:
+                bad, detail = native_print_replay(work, r['io'], fn, v)
+                if bad:
+                    key = f"io/{fn}/" + ('INT64_MIN' if v == I64MIN else 'value')
+                    out['reports'].append((key, f"{fn}({v}): CBMC twin counterexample; native run wrote {detail['got']!r}, expected {detail['want']!r}", {'v': v, 'native': detail, 'cbmc': res}))
+                else:
+                    out['inconc'].append(f"CBMC twin {fn}({v}): counterexample did not reproduce natively: {detail}")
+            if res['proof'] == 'failed' and not res['counterexamples']:
+                out['inconc'].append(f"CBMC twin {fn}: proof failed ({res.get('failed_checks')}) but no counterexample value was extracted")
+            return out
         if t['kind'] == 'print':
             r = E.req({'cmd': 'cdriver', 'nargs': 0, 'dir': work})
             if not r.get('ok'):
@@ -372,6 +460,8 @@ def _task(t):
                     out['reports'].append((f"driver/{f['what'][:40]}", f"driver{n}: {f['what']}", f))
         for k in ('obligations', 'discharged', 'queries', 'solver_s'):
             out[k] = res[k]
+        if time.time() > t.get('deadline', 1e18):
+            pass
         out['inconc'] += [f"{t}: {w}" for w in res['inconclusive']]
     finally:
         shutil.rmtree(work, ignore_errors=True)
@@ -385,6 +475,8 @@ def c20():
     to = 120000 if tier == 'quick' else 900000
     tasks = [{'kind': 'print', 'fn': 'print_i64', 'timeout_ms': to}, {'kind': 'print', 'fn': 'println_i64', 'timeout_ms': to}]
     tasks += [{'kind': 'driver', 'n': n, 'timeout_ms': to} for n in range(0, 8)]
+    tasks += [{'kind': 'cbmc', 'fn': fn, 'bound': 1000 if tier == 'quick' else 1000000, 'search_s': 150 if tier == 'quick' else 900, 'timeout_ms': to}
+              for fn in ('print_i64', 'println_i64')]
     results = fw.pmap(_task, tasks)
     # argument registers -> first environment positions: the prologue obligations of C13(1), for every supported count
     import callconv
